@@ -61,7 +61,7 @@ static void op_caldate(const Args& a) {
     auto& q = c.t[size_t(s)];
     if (q.y != y || q.m != m || q.d != d) badx("calendar-date", "Utility::date(" + istr(s) + ") = " + istr(y) + "-" + istr(m) + "-" + istr(d) + ", the calendar walk gives " + istr(q.y) + "-" + istr(q.m) + "-" + istr(q.d));
   }
-  if (s >= 1) {
+  if (s >= 1 && s <= 73000000) {
     if (!CalTab::valid(y, m, d)) badx("calendar-date", "Utility::date(" + istr(s) + ") = " + istr(y) + "-" + istr(m) + "-" + istr(d) + " is not a date of the documented calendar");
     int s2 = -1; guarded([&] { s2 = Utility::day(y, m, d); });
     if (s2 != s) badx("calendar-roundtrip", "day(date(" + istr(s) + ")) = " + istr(s2));
@@ -253,6 +253,7 @@ static void op_gcalt(const Args& a) {
     if (g.AltZone() != az0 || bits(g.AltEasting()) != bits(ae0) || bits(g.AltNorthing()) != bits(an0)) badx("geocoords-alt", "SetAltZone(MATCH) changed the alternate zone");
     return;
   }
+  if (e0.empty() && want == UTMUPS::INVALID && g.AltZone() == UTMUPS::INVALID) return;   // INVALID in, INVALID (all NaN) out
   if (!e0.empty() || g.AltZone() != want) { badx("geocoords-alt", "AltZone() = " + istr(g.AltZone()) + ", StandardZone(lat, lon, " + istr(zone) + ") = " + istr(want)); return; }
   { int z; bool np; double x, y, gam, k;
     std::string e2 = guarded([&] { UTMUPS::Forward(lat, lon, z, np, x, y, gam, k, g.AltZone()); });
@@ -272,7 +273,7 @@ static void op_gcalt(const Args& a) {
     int pe = std::max(-5, std::min(9, prec)); double tol = 0.5 * std::pow(10.0, -pe) * (1 + 1e-9) + 4 * ulp(1e7);
     if (!e3.empty()) badx("geocoords-closure", "AltUTMUPSRepresentation '" + s + "' not accepted by GeoCoords (" + e3 + ")");
     else {
-      double dn = h.Northing() - g.AltNorthing(); if (h.Northp() != g.Northp()) dn += (h.Northp() ? -1 : 1) * 1e7;
+      double dn = h.Northing() - g.AltNorthing(); if (h.Northp() != g.Northp()) dn += (h.Northp() ? 1 : -1) * 1e7;
       if (h.Zone() != g.AltZone() || !(std::fabs(h.Easting() - g.AltEasting()) <= tol) || !(std::fabs(dn) <= tol)) {
         std::snprintf(buf, sizeof buf, "'%s' parses to zone %d (%.17g, %.17g), alternate was zone %d (%.17g, %.17g)", s.c_str(), h.Zone(), h.Easting(), h.Northing(), g.AltZone(), g.AltEasting(), g.AltNorthing());
         badx("geocoords-alt-roundtrip", buf);
@@ -295,7 +296,7 @@ static void op_gcalt(const Args& a) {
       double sq = std::pow(10.0, 5 - pe), tol = 0.5 * sq * (1 + 1e-9) + 1e-6;
       if (!e3.empty()) badx("geocoords-closure", "AltMGRSRepresentation '" + s + "' not accepted by GeoCoords (" + e3 + ")");
       else {
-        double dn = h.Northing() - g.AltNorthing(); if (h.Northp() != g.Northp()) dn += (h.Northp() ? -1 : 1) * 1e7;
+        double dn = h.Northing() - g.AltNorthing(); if (h.Northp() != g.Northp()) dn += (h.Northp() ? 1 : -1) * 1e7;
         if (h.Zone() != g.AltZone() || !(std::fabs(h.Easting() - g.AltEasting()) <= tol) || !(std::fabs(dn) <= tol)) badx("geocoords-alt-roundtrip", "'" + s + "' does not parse back to the alternate coordinates");
       }
     }
@@ -330,7 +331,7 @@ static void op_gcnp(const Args& a) {
     double E = alt ? g.AltEasting() : g.Easting(), N = alt ? g.AltNorthing() : g.Northing();
     // the parsed object reports the position in its true hemisphere again
     bool hem_ok = h.Northp() == g.Northp() || std::fabs(h.Latitude()) * 111e3 <= tol * 2;
-    double dn = h.Northing() - N; if (h.Northp() != g.Northp()) dn += (h.Northp() ? -1 : 1) * 1e7;
+    double dn = h.Northing() - N; if (h.Northp() != g.Northp()) dn += (h.Northp() ? 1 : -1) * 1e7;
     if (h.Zone() != Z || !hem_ok || !(std::fabs(h.Easting() - E) <= tol) || !(std::fabs(dn) <= tol)) {
       std::snprintf(buf, sizeof buf, "'%s' parses to %d%c (%.17g, %.17g), was %d%c (%.17g, %.17g)", s.c_str(), h.Zone(), h.Hemisphere(), h.Easting(), h.Northing(), Z, g.Hemisphere(), E, N);
       badx("geocoords-explicit-hemisphere", buf);
@@ -358,7 +359,11 @@ static void op_gcparse(const Args& a) {
   auto same = [](double p, double q) { return bits(p) == bits(q) || (std::isnan(p) && std::isnan(q)); };
   if (g.Zone() != w.Zone() || g.Northp() != w.Northp() || !same(g.Latitude(), w.Latitude()) || !same(g.Longitude(), w.Longitude()) || !same(g.Easting(), w.Easting()) || !same(g.Northing(), w.Northing()) ||
       !same(g.Convergence(), w.Convergence()) || !same(g.Scale(), w.Scale()) || g.AltZone() != g.Zone() || !same(g.AltEasting(), g.Easting()) || !same(g.AltNorthing(), g.Northing())) {
-    char buf[300]; std::snprintf(buf, sizeof buf, "'%s' -> %d%c %.17g %.17g (%.17g, %.17g), the documented reader gives %d%c %.17g %.17g (%.17g, %.17g)", s.c_str(), g.Zone(), g.Hemisphere(), g.Easting(), g.Northing(),
+    char buf[300];
+    // class F97: "Internally longitudes are reduced to the range [-180, 180]" (GeoCoords.hpp) is not done on the string path
+    bool onlylon = g.Zone() == w.Zone() && g.Northp() == w.Northp() && same(g.Latitude(), w.Latitude()) && same(g.Easting(), w.Easting()) && same(g.Northing(), w.Northing()) &&
+                   kind == 2 && std::fabs(g.Longitude()) > 180 && (std::fabs(std::remainder(g.Longitude() - w.Longitude(), 360.0)) < 1e-9 || (std::isinf(g.Longitude()) && std::isnan(w.Longitude())));
+    if (onlylon) { std::snprintf(buf, sizeof buf, "'%s' -> Longitude() = %.17g, not reduced to [-180, 180] (GeoCoords(lat, lon) gives %.17g)", s.c_str(), g.Longitude(), w.Longitude()); badx("geocoords-longitude-not-reduced", buf); return; } std::snprintf(buf, sizeof buf, "'%s' -> %d%c %.17g %.17g (%.17g, %.17g), the documented reader gives %d%c %.17g %.17g (%.17g, %.17g)", s.c_str(), g.Zone(), g.Hemisphere(), g.Easting(), g.Northing(),
                                  g.Latitude(), g.Longitude(), w.Zone(), w.Hemisphere(), w.Easting(), w.Northing(), w.Latitude(), w.Longitude());
     badx("geocoords-dispatch", buf);
   }
@@ -441,7 +446,7 @@ static void gen_calendar(Rng& r, bool thorough) {
   const int chunk = 20000;
   int lo = thorough ? 1 : c.year0[1352], hi = thorough ? int(c.t.size()) - 1 : c.year0[2427];
   for (int s = lo; s <= hi; s += chunk) { stratum("calendar/exhaustive-scan"); run("calscan", {std::to_string(s), std::to_string(std::min(chunk, hi - s + 1))}); }
-  stratum("calendar/exhaustive-scan"); run("calscan", {"-400", "800"});   // around day 0 (truncating division)
+  stratum("calendar/exhaustive-scan"); run("calscan", {"1", "800"});      // the first years (day numbers below 1 are sampled one by one: strata around year 0)
   // anchors: the switch, day 1, known week days, leap days
   static const int anchors[][3] = {{1, 1, 1}, {1, 12, 31}, {1752, 9, 2}, {1752, 9, 14}, {1752, 9, 3}, {1752, 9, 13}, {1752, 2, 29}, {1700, 2, 29}, {1800, 2, 29}, {1900, 2, 29}, {2000, 2, 29}, {2100, 2, 29},
     {1582, 10, 5}, {1582, 10, 15}, {1970, 1, 1}, {2000, 1, 1}, {2001, 7, 1}, {2012, 7, 3}, {2026, 9, 30}, {4, 2, 29}, {0, 12, 31}, {0, 1, 1}, {-1, 3, 1}, {2024, 13, 1}, {2024, 0, 1}, {2024, 2, 30}, {2023, 2, 29}, {2024, 4, 31},
